@@ -52,6 +52,9 @@ Decls == {[a |-> ka, b |-> kb, w |-> "none", shared |-> FALSE, ws |-> "setup"] :
 DeclsJit == {[a |-> ka, b |-> "jholder", w |-> "c", shared |-> FALSE, ws |-> "jattr"] : ka \in AKinds}
             \cup {[a |-> ka, b |-> "jholder2", w |-> "none", shared |-> FALSE, ws |-> "setup"] : ka \in AKinds}
 
+\* focused declaration set (cfg: Decls <- DeclsLazy): one lazily bound grand-child, nothing else
+DeclsLazy == {[a |-> "Mid", b |-> "none", w |-> "none", shared |-> FALSE, ws |-> "setup"]}
+
 Attrs(d) == {"a"} \cup (IF d.b # "none" THEN {"b"} ELSE {}) \cup (IF d.w # "none" THEN {"wrapped"} ELSE {}) \cup (IF d.b = "jholder2" THEN {"b2"} ELSE {})
 
 RECURSIVE LeafPath(_, _)
@@ -147,7 +150,8 @@ UseImpl(S, attr, via) ==
   ELSE LET fork == IF via \in {"jit", "jit_f"} THEN [s \in cfg.streams |-> KeyId(s, <<>>, Cnt(S.ctr, <<>>, s) + 1)] ELSE <<>>
            cIn == IF via \in {"jit", "jit_f"} THEN BumpAll(S.ctr, <<>>, cfg.streams) ELSE S.ctr
            inner == [S0 EXCEPT !.ctr = cIn]                                   \* copy of the variables, shared counters
-           streamsIn == IF IsWhile(via) /\ phase = "apply" THEN {} ELSE cfg.streams      \* while_loop: no stream is split into the loop
+           \* while_loop: no stream is split into the loop; remat_p = nn.remat(rngs='params'): only that stream is lifted
+           streamsIn == IF IsWhile(via) /\ phase = "apply" THEN {} ELSE IF via = "remat_p" THEN cfg.streams \cap {"params"} ELSE cfg.streams
            k == IF phase = "init" THEN 1 ELSE Trips(via)                        \* init cannot run inside while_loop: one plain use instead
            R == Repeat(inner, attr, streamsIn, fork, cfg.mut, k)
            pub == [q \in {x \in DOMAIN R.vars : x[1] \in cfg.mut} \cup {x \in DOMAIN S.vars : x[1] \notin cfg.mut} |->
